@@ -153,7 +153,7 @@ CLAIMED = {
    design="§4 C03", technique="Coq proof over hand model; differential correspondence on command histories + minimal-edit oracle",
    note=TB + 'Axioms: none. Model reflects fix F7.'),
  "C04": dict(
-   text="16 theorems in coq/Properties/C04.v: for all six commands, when the abstract model on records accepts, exec succeeds and re-reading the file yields exactly the model's records, lifted to arbitrary histories (C04_history_refines_partial); rejections of start/stop/switch leave the file unchanged; create keeps date order. _partial because files are spec-conforming (spec_state) and arguments spec objects, and the rejecting direction is missing for track/pause. Two refuted witnesses (unterminated CR last line, trailing blank after `?`). Tied to the code by histories of up to 8 real CLI commands (file of one step feeds the next) compared step by step with an independent abstract model in Python.",
+   text="42 theorems in coq/Properties/C04.v: an abstract model on parsed records (add entry / new record at its chronological position with configured should-total / close the open range with appended summary / pause by whole elapsed minutes carrying tags) and, for all six commands and all histories in which any step may be rejected, exec reports what the model says and re-reading the file yields exactly the model's records (C04_exec_total_partial, C04_history_total_partial); all listed rejections (second open range, nothing to stop or pause, end before start, unknown entry to resume, malformed track texts in six families, flag conflicts) fail and change nothing. _partial because files are spec-conforming (every parser-accepted file is proved equivalent to one: C04_accepted_equivalent) and because of the K2/K15 guards; two refuted witnesses. Tied to the code by histories of up to 8 real CLI commands (the file of one step feeds the next) compared step by step with an independent abstract model in Python.",
    design="§4 C04", technique="Coq proof (refinement, partial) over hand model; differential correspondence on histories + abstract-model oracle",
    note=TB + 'Axioms: none. Known finding K15 (track with leading blank). Pause loop driven through the add-only tick hook; ticker and signals not modelled.'),
  "C05": dict(
